@@ -32,15 +32,45 @@ var baselineFuncsRaw string
 
 var normaliseNotes []string
 
-func baselineFuncs() map[string]bool {
-	m := map[string]bool{}
+// baselineFuncs: key → signature text (parameter and result types, names dropped) of the pinned tree's functions and
+// package-level variables ("<pkg>:var <name>" → type text).
+func baselineFuncs() map[string]string {
+	m := map[string]string{}
 	for _, l := range strings.Split(baselineFuncsRaw, "\n") {
 		l = strings.TrimSpace(l)
-		if l != "" {
-			m[l] = true
+		if l == "" {
+			continue
 		}
+		k, sig, _ := strings.Cut(l, "\t")
+		m[k] = sig
 	}
 	return m
+}
+
+// sigText renders a function type without parameter names.
+func sigText(ft *ast.FuncType) string {
+	fl := func(l *ast.FieldList) string {
+		if l == nil {
+			return ""
+		}
+		var out []string
+		for _, f := range l.List {
+			n := len(f.Names)
+			if n == 0 {
+				n = 1
+			}
+			for i := 0; i < n; i++ {
+				out = append(out, types.ExprString(f.Type))
+			}
+		}
+		return strings.Join(out, ",")
+	}
+	return "(" + fl(ft.Params) + ")(" + fl(ft.Results) + ")"
+}
+
+type declInfo struct {
+	Path string
+	Sig  string
 }
 
 // declKey: "<pkg dir relative to the module>:<recv>.<name>" from syntax alone.
@@ -62,8 +92,8 @@ func declKey(rel string, fd *ast.FuncDecl) string {
 }
 
 // listDecls parses the non-test Go files under internal/ and cmd/ (syntax only) and returns key → file.
-func listDecls(root string) (map[string]string, error) {
-	out := map[string]string{}
+func listDecls(root string) (map[string]declInfo, error) {
+	out := map[string]declInfo{}
 	fset := token.NewFileSet()
 	for _, top := range []string{"internal", "cmd"} {
 		err := filepath.Walk(filepath.Join(root, top), func(path string, info os.FileInfo, err error) error {
@@ -80,7 +110,25 @@ func listDecls(root string) (map[string]string, error) {
 			rel, _ := filepath.Rel(root, filepath.Dir(path))
 			for _, d := range f.Decls {
 				if fd, ok := d.(*ast.FuncDecl); ok && fd.Body != nil {
-					out[declKey(rel, fd)] = path
+					out[declKey(rel, fd)] = declInfo{path, sigText(fd.Type)}
+				}
+				if gd, ok := d.(*ast.GenDecl); ok && gd.Tok == token.VAR {
+					for _, sp := range gd.Specs {
+						vs := sp.(*ast.ValueSpec)
+						for i, n := range vs.Names {
+							ty := ""
+							if vs.Type != nil {
+								ty = types.ExprString(vs.Type)
+							} else if i < len(vs.Values) {
+								if cl, ok := vs.Values[i].(*ast.CompositeLit); ok && cl.Type != nil {
+									ty = types.ExprString(cl.Type)
+								}
+							}
+							if n.Name != "_" {
+								out[rel+":var "+n.Name] = declInfo{path, ty}
+							}
+						}
+					}
 				}
 			}
 			return nil
@@ -102,14 +150,20 @@ func normaliseOverlay(root string) map[string][]byte {
 	if err != nil || len(base) == 0 {
 		return nil
 	}
+	overlay := map[string][]byte{}
+	env := append(os.Environ(), "GOFLAGS=-mod=mod", "GOPROXY=off", "GOWORK=off")
+	renamed := renameBack(root, env, base, decls, overlay)
 	newFns := map[string]bool{}
 	for k := range decls {
-		if !base[k] {
+		if _, ok := base[k]; !ok && !renamed[k] && !strings.Contains(k, ":var ") {
 			newFns[k] = true
 		}
 	}
 	if len(newFns) == 0 {
-		return nil
+		if len(overlay) == 0 {
+			return nil
+		}
+		return overlay
 	}
 	var names []string
 	for k := range newFns {
@@ -117,9 +171,7 @@ func normaliseOverlay(root string) map[string][]byte {
 	}
 	sort.Strings(names)
 	normaliseNotes = append(normaliseNotes, fmt.Sprintf("functions not in the pinned tree: %s", strings.Join(names, ", ")))
-	overlay := map[string][]byte{}
 	gaveUp := map[string]bool{}
-	env := append(os.Environ(), "GOFLAGS=-mod=mod", "GOPROXY=off", "GOWORK=off")
 	for iter := 0; iter < 40; iter++ {
 		cfg := &packages.Config{Mode: packages.LoadSyntax | packages.NeedModule, Dir: root, Env: env, Overlay: overlay}
 		pkgs, err := packages.Load(cfg, "./internal/...", "./cmd/...")
@@ -278,4 +330,155 @@ func normaliseOverlay(root string) map[string][]byte {
 		return nil
 	}
 	return overlay
+}
+
+// renameBack undoes pure renames: a function (or package-level variable) of the pinned tree that is gone, while exactly
+// one declaration that the pinned tree does not have sits in the same package with the same receiver and the same
+// signature (variables: the same type), is taken to be that declaration under a new name. Every identifier that resolves
+// to the new object is rewritten to the pinned name in the overlay, so the rules (which are keyed by the pinned names)
+// analyse the same code. If the guess is wrong the rules simply analyse the other function under the old name and have
+// to hold on it; nothing is skipped. Returns the keys that were renamed.
+func renameBack(root string, env []string, base map[string]string, decls map[string]declInfo, overlay map[string][]byte) map[string]bool {
+	renamed := map[string]bool{}
+	group := func(k string) string {
+		// "<rel>:<Recv>." or "<rel>:" or "<rel>:var "
+		if i := strings.LastIndexAny(k, ". "); i > strings.Index(k, ":") {
+			return k[:i+1]
+		}
+		return k[:strings.Index(k, ":")+1]
+	}
+	missing := map[string][]string{} // group+sig → pinned keys that are gone
+	added := map[string][]string{}
+	for k, sig := range base {
+		if _, ok := decls[k]; !ok {
+			missing[group(k)+"|"+sig] = append(missing[group(k)+"|"+sig], k)
+		}
+	}
+	for k, d := range decls {
+		if _, ok := base[k]; !ok {
+			added[group(k)+"|"+d.Sig] = append(added[group(k)+"|"+d.Sig], k)
+		}
+	}
+	pairs := map[string]string{} // new key → pinned key
+	for g, ms := range missing {
+		if as := added[g]; len(ms) == 1 && len(as) == 1 {
+			pairs[as[0]] = ms[0]
+		}
+	}
+	if len(pairs) == 0 {
+		return renamed
+	}
+	cfg := &packages.Config{Mode: packages.LoadSyntax | packages.NeedModule, Dir: root, Env: env}
+	pkgs, err := packages.Load(cfg, "./internal/...", "./cmd/...")
+	if err != nil {
+		return renamed
+	}
+	nameOf := func(k string) string {
+		k = k[strings.Index(k, ":")+1:]
+		k = strings.TrimPrefix(k, "var ")
+		if i := strings.LastIndex(k, "."); i >= 0 {
+			k = k[i+1:]
+		}
+		return k
+	}
+	type edit struct {
+		off, n int
+		to     string
+	}
+	edits := map[string][]edit{}
+	var keys []string
+	for k := range pairs {
+		keys = append(keys, k)
+	}
+	sort.Strings(keys)
+	for _, nk := range keys {
+		ok := pairs[nk]
+		newName, oldName := nameOf(nk), nameOf(ok)
+		// find the object
+		var obj types.Object
+		for _, pk := range pkgs {
+			for id, o := range pk.TypesInfo.Defs {
+				if o == nil || id.Name != newName {
+					continue
+				}
+				path := pk.Fset.Position(id.Pos()).Filename
+				if path != decls[nk].Path {
+					continue
+				}
+				switch o := o.(type) {
+				case *types.Func:
+					rel, _ := filepath.Rel(root, filepath.Dir(path))
+					recv := ""
+					if r := o.Type().(*types.Signature).Recv(); r != nil {
+						t := r.Type()
+						if pt, isP := t.(*types.Pointer); isP {
+							t = pt.Elem()
+						}
+						if nt, isN := t.(*types.Named); isN {
+							recv = nt.Obj().Name() + "."
+						}
+					}
+					if rel+":"+recv+newName == nk {
+						obj = o
+					}
+				case *types.Var:
+					if !o.IsField() && o.Parent() == pk.Types.Scope() && strings.Contains(nk, ":var ") {
+						obj = o
+					}
+				}
+			}
+		}
+		if obj == nil {
+			continue
+		}
+		// a method that satisfies an interface method of the module under the new name cannot be renamed alone
+		conflict := false
+		if f, isF := obj.(*types.Func); isF && f.Type().(*types.Signature).Recv() != nil {
+			for _, pk := range pkgs {
+				for _, o := range pk.TypesInfo.Defs {
+					if m, isM := o.(*types.Func); isM && m != f && m.Name() == newName {
+						if r := m.Type().(*types.Signature).Recv(); r != nil && types.IsInterface(r.Type()) {
+							conflict = true
+						}
+					}
+				}
+			}
+		}
+		if conflict {
+			normaliseNotes = append(normaliseNotes, nk+": looks like "+ok+" renamed, but an interface of the module declares the new name; kept")
+			continue
+		}
+		for _, pk := range pkgs {
+			for _, m := range []map[*ast.Ident]types.Object{pk.TypesInfo.Defs, pk.TypesInfo.Uses} {
+				for id, o := range m {
+					if o == obj {
+						tf := pk.Fset.File(id.Pos())
+						edits[tf.Name()] = append(edits[tf.Name()], edit{tf.Offset(id.Pos()), len(id.Name), oldName})
+					}
+				}
+			}
+		}
+		renamed[nk] = true
+		normaliseNotes = append(normaliseNotes, nk+": same package, receiver and signature as the pinned tree's "+ok+", which is gone — analysed under the pinned name")
+	}
+	for path, es := range edits {
+		if strings.HasSuffix(path, "_test.go") {
+			continue
+		}
+		c, err := os.ReadFile(path)
+		if err != nil {
+			continue
+		}
+		sort.Slice(es, func(i, j int) bool { return es[i].off > es[j].off })
+		last := -1
+		for _, e := range es {
+			if e.off == last {
+				continue
+			}
+			last = e.off
+			c = append(append(append([]byte{}, c[:e.off]...), e.to...), c[e.off+e.n:]...)
+		}
+		overlay[path] = c
+	}
+	return renamed
 }
